@@ -309,33 +309,34 @@ impl Lockfile {
     pub fn paths(&self, base_dst: &Path) -> Result<Vec<PathSet>, MetadataError> {
         let mut ret = Vec::new();
 
-        for locks in self.lock_table.values() {
-            for lock in locks {
-                let metadata = self.get_metadata(&lock.source)?;
-                let path = metadata.project_path();
-                // Analyzed only for the build root (`Metadata::paths`).
-                let examples = path.join("examples");
+        // `lock_table` is a HashMap; walk it in the sorted `projects()` order so
+        // the file processing order (and with it the filelist) is the same on
+        // every run.
+        for lock in self.projects() {
+            let metadata = self.get_metadata(&lock.source)?;
+            let path = metadata.project_path();
+            // Analyzed only for the build root (`Metadata::paths`).
+            let examples = path.join("examples");
 
-                for src in &veryl_path::gather_files_with_extension(&path, "veryl", false)? {
-                    if src.starts_with(&examples) {
-                        continue;
-                    }
-                    let Ok(rel) = src.strip_prefix(&path) else {
-                        return Err(MetadataError::InvalidSourceLocation(src.clone()));
-                    };
-                    let mut dst = base_dst.join(&lock.name);
-                    dst.push(rel);
-                    dst.set_extension("sv");
-                    let mut map = dst.clone();
-                    map.set_extension("sv.map");
-                    ret.push(PathSet {
-                        prj: lock.name.clone(),
-                        src: src.to_path_buf(),
-                        dst,
-                        map,
-                        example: false,
-                    });
+            for src in &veryl_path::gather_files_with_extension(&path, "veryl", false)? {
+                if src.starts_with(&examples) {
+                    continue;
                 }
+                let Ok(rel) = src.strip_prefix(&path) else {
+                    return Err(MetadataError::InvalidSourceLocation(src.clone()));
+                };
+                let mut dst = base_dst.join(&lock.name);
+                dst.push(rel);
+                dst.set_extension("sv");
+                let mut map = dst.clone();
+                map.set_extension("sv.map");
+                ret.push(PathSet {
+                    prj: lock.name.clone(),
+                    src: src.to_path_buf(),
+                    dst,
+                    map,
+                    example: false,
+                });
             }
         }
 
